@@ -67,8 +67,15 @@ def run(ctx):
     def reset():
         DescriptorFormat.config = {"decay_pattern": DEFAULT[0], "sub_decay_pattern": DEFAULT[1]}
 
+    class PresetFormat(DescriptorFormat):
+        def __init__(self, a, b):
+            super().__init__(a, b)
+
+    seq_no = [0]
+
     def run_seq(ops, label):
         """ops: list of tuples; executes on the real class and on the stack spec, step by step"""
+        seq_no[0] += 1
         reset()
         spec = Spec()
         objs = []
@@ -80,7 +87,8 @@ def run(ctx):
             out = "ok"
             try:
                 if kind == "create":
-                    objs.append(DescriptorFormat(*op[1]))
+                    # every other context object is an instance of a subclass of DescriptorFormat (a user's preset style)
+                    objs.append((DescriptorFormat if (len(objs) + seq_no[0]) % 2 == 0 else PresetFormat)(*op[1]))
                     spec.objs.append(op[1])
                     wire.append(["create", op[1][0], op[1][1]])
                 elif kind == "enter":
